@@ -252,6 +252,14 @@ func implementsTextUnmarshaler(td *TraitDesc) bool {
 	return types.Implements(td.Type, iFace)
 }
 
+// clashesWith reports whether Parse<T> could not tell the two trait constants apart.
+func (t TraitInstance) clashesWith(other TraitInstance) bool {
+	if t.constType == nil || other.constType == nil || t.constValue == nil || other.constValue == nil {
+		return t.value == other.value
+	}
+	return t.sameConstant(other)
+}
+
 // TraitInstances are a sortable slice of `TraitInstance`s.
 type TraitInstances []TraitInstance
 
